@@ -441,3 +441,66 @@ BENIGN = [
     {"name": "sqrt-as-pow", "file": K, "old": 'rate = f"{a} * {b} * (0.62 + 0.4767*{c}*sqrt(300.0/Tgas))"', "new": 'rate = f"{a} * {b} * (0.62 + 0.4767*{c}*pow(Tgas/300.0, -0.5))"'},
     {"name": "local-renamed", "file": U, "old": "        rtype = self.reaction_type\n\n        if rtype == self.ReactionType.UMIST_TWOBODY:", "new": "        rtype = self.reaction_type\n        kind = rtype\n\n        if kind == self.ReactionType.UMIST_TWOBODY:"},
 ]
+
+# ---- spellings accepted since the round-4 benign sets (each also as a seeded defect written in the new spelling) ----
+_BEAUT_OLD = '        rate = (\n            rate_string.replace("++", "+")\n            .replace("--", "+")\n            .replace("+-", "-")\n            .replace("-+", "-")\n        )\n'
+_BEAUT_LOOP = '        rate = rate_string\n        for doubled, single in _SIGNS:\n            rate = rate.replace(doubled, single)\n'
+_CLS_OLD = 'class Reaction(Component):\n    """Class of chemical reactions"""\n'
+_GLIST_OLD = ('        elif rtype in [\n            ReactionType.GRAIN_FREEZE,\n            ReactionType.GRAIN_DESORB_THERMAL,\n            ReactionType.GRAIN_DESORB_COSMICRAY,\n'
+              '            ReactionType.GRAIN_DESORB_PHOTON,\n            ReactionType.GRAIN_DESORB_REACTIVE,\n            ReactionType.GRAIN_DESORB_H2,\n            ReactionType.GRAIN_RECOMINE,\n'
+              '            ReactionType.GRAIN_ECAPTURE,\n            ReactionType.SURFACE_TWOBODY,\n        ]:\n')
+_GTUPLE = ('_ON_GRAIN = (\n    ReactionType.GRAIN_FREEZE,\n    ReactionType.GRAIN_DESORB_THERMAL,\n    ReactionType.GRAIN_DESORB_COSMICRAY,\n    ReactionType.GRAIN_DESORB_PHOTON,\n'
+           '    ReactionType.GRAIN_DESORB_REACTIVE,\n    ReactionType.GRAIN_DESORB_H2,\n    ReactionType.GRAIN_RECOMINE,\n    ReactionType.GRAIN_ECAPTURE,\n    ReactionType.SURFACE_TWOBODY,\n)\n\n\n')
+_UMIST_CHAIN = ('        elif rtype == self.ReactionType.UMIST_PH:\n            rate = f"{a} * exp(-{c}*Av)"\n        elif rtype == self.ReactionType.UMIST_CP:\n            rate = f"{a}"\n'
+                '        elif rtype == self.ReactionType.UMIST_CR:\n            rate = f"{a} * pow(Tgas/300.0, {b}) * {c} / (1-omega)"\n        else:\n            raise RuntimeError(\n'
+                '                f"Code {self.code} has not been defined! Please extend the definition"\n            )\n')
+
+
+def _umist_table(ph_law):
+    return ('        else:\n            laws = (\n                (self.ReactionType.UMIST_PH, lambda: ' + ph_law + '),\n                (self.ReactionType.UMIST_CP, lambda: f"{a}"),\n'
+            '                (self.ReactionType.UMIST_CR, lambda: f"{a} * pow(Tgas/300.0, {b}) * {c} / (1-omega)"),\n            )\n            for known, law in laws:\n'
+            '                if rtype == known:\n                    return self._beautify(law())\n            raise RuntimeError(\n'
+            '                f"Code {self.code} has not been defined! Please extend the definition"\n            )\n')
+
+
+_LEEDS4_OLD = ('            rate = f"G0 * {a} * exp(-{c}*Av)"\n            if re1.name in ["H2", "CO", "N2"]:\n'
+               '                shield = f"GetShieldingFactor(IDX_{re1.alias}, h2col, {re1.name.lower()}col, Tgas, 0)"\n                rate = f"{rate} * {shield}"\n')
+_LEEDS_DEF = '    def rateexpr(self, grain: Grain = None) -> str:\n        a = self.alpha\n        b = self.beta\n        c = self.gamma\n        rtype = self.rtype\n'
+
+
+def _leeds_helper(names):
+    return ('    _selfshielded = ' + names + '\n\n    def _photolaw(self, who, names, skip):\n        rate = f"G0 * {self.alpha} * exp(-{self.gamma}*Av)"\n        if who.name in names:\n'
+            '            rate = f"{rate} * GetShieldingFactor(IDX_{who.alias[skip:]}, h2col, {who.name[skip:].lower()}col, Tgas, 0)"\n        return rate\n\n') + _LEEDS_DEF
+
+
+BENIGN += [
+    {"name": "beautify-loop-over-module-table", "edits": [
+        {"file": R, "old": _BEAUT_OLD, "new": _BEAUT_LOOP},
+        {"file": R, "old": _CLS_OLD, "new": '_SIGNS = (("++", "+"), ("--", "+"), ("+-", "-"), ("-+", "-"))\n\n\n' + _CLS_OLD}]},
+    {"name": "grain-types-module-tuple", "edits": [
+        {"file": R, "old": _GLIST_OLD, "new": "        elif rtype in _ON_GRAIN:\n"},
+        {"file": R, "old": _CLS_OLD, "new": _GTUPLE + _CLS_OLD}]},
+    {"name": "umist-table-of-closures", "file": U, "old": _UMIST_CHAIN, "new": _umist_table('f"{a} * exp(-{c}*Av)"')},
+    {"name": "leeds-merged-zero-arms", "file": L, "old": "        elif rtype in range(15, 20):\n", "new": "        elif rtype == 15 or rtype in range(16, 20):\n"},
+    {"name": "leeds-shield-helper-class-list", "edits": [
+        {"file": L, "old": _LEEDS4_OLD, "new": "            rate = self._photolaw(re1, self._selfshielded, 0)\n"},
+        {"file": L, "old": _LEEDS_DEF, "new": _leeds_helper('["H2", "CO", "N2"]')}]},
+    {"name": "umist-factors-appended", "file": U,
+     "old": '            rate = " * ".join(\n                s\n                for s in [\n                    f"{a}",\n                    f"pow(Tgas/300.0, {b})" if b else "",\n'
+            '                    f"exp(-{c}/Tgas)" if c else "",\n                ]\n                if s\n            )\n',
+     "new": '            factors = [f"{a}"]\n            if b:\n                factors.append(f"pow(Tgas/300.0, {b})")\n            if c:\n                factors.append(f"exp(-{c}/Tgas)")\n'
+            '            rate = " * ".join(filter(None, factors))\n'},
+]
+MUTANTS += [
+    {"name": "beautify-loop-table-wrong-sign", "edits": [
+        {"file": R, "old": _BEAUT_OLD, "new": _BEAUT_LOOP},
+        {"file": R, "old": _CLS_OLD, "new": '_SIGNS = (("++", "+"), ("--", "-"), ("+-", "-"), ("-+", "-"))\n\n\n' + _CLS_OLD}], "rules": ["R1"]},
+    {"name": "grain-module-tuple-missing-type", "edits": [
+        {"file": R, "old": _GLIST_OLD, "new": "        elif rtype in _ON_GRAIN:\n"},
+        {"file": R, "old": _CLS_OLD, "new": _GTUPLE.replace("    ReactionType.GRAIN_DESORB_H2,\n", "") + _CLS_OLD}], "rules": ["R2"]},
+    {"name": "umist-closure-table-photon-sign", "file": U, "old": _UMIST_CHAIN, "new": _umist_table('f"{a} * exp({c}*Av)"'), "rules": ["R3"]},
+    {"name": "leeds-merged-arm-swallows-type", "file": L, "old": "        elif rtype in range(15, 20):\n", "new": "        elif rtype == 20 or rtype in range(15, 20):\n", "rules": ["R2"]},
+    {"name": "leeds-class-list-extra-species", "edits": [
+        {"file": L, "old": _LEEDS4_OLD, "new": "            rate = self._photolaw(re1, self._selfshielded, 0)\n"},
+        {"file": L, "old": _LEEDS_DEF, "new": _leeds_helper('["H2", "CO", "N2", "H2+"]')}], "rules": ["R3"]},
+]
